@@ -354,7 +354,7 @@ def _chk_nexus(args, res, old):
             return "nexus row %r for bin %r" % (tuple(o), tuple(r)[:5])
 
 
-contract("cnvlib/export.py::export_nexus_basic", params=dict(cnarr=ObjT("CopyNumArray")), bounded=True, gen=_gen_nexus,
+contract("cnvlib/export.py::export_nexus_basic#rt", params=dict(cnarr=ObjT("CopyNumArray")), bounded=True, gen=_gen_nexus,
          props=("C20",), checks=[("one_row_per_bin_with_label", _chk_nexus)])
 
 
@@ -454,4 +454,25 @@ contract(
               ("cn_dropped_from_gain", 'f"0/1:0:{out_row.ncopies}:{out_row.probes}"', 'f"0/1:0:{out_row.probes}"')],
     notes="text is abstract here: concatenation and int/float-to-text are uninterpreted functions (equal parts in equal "
           "order give equal text), so the clauses compare the emitted fields with the spec's own concatenation of the same parts",
+)
+
+
+# ----------------------------------------------------------------------------- deductive: the Nexus basic table
+contract(
+    "cnvlib/export.py::export_nexus_basic",
+    params=dict(cnarr=ObjT("CopyNumArray", data=TabT(index="any", chromosome=Str, start=Int, end=Int, gene=Str, log2=Real, weight=Real), meta=DictT())),
+    returns=TabT(index="any", chromosome=Str, start=Int, end=Int, gene=Str, log2=Real, probe=Str),
+    requires=[],
+    ensures=[
+        ("one_row_per_bin", "len(result) == len(cnarr.data)"),
+        ("columns", "'weight' not in result and 'probe' in result"),
+        ("rows_kept_with_one_based_labels", "forall(0, len(result), lambda k: result.chromosome[k] == cnarr.data.chromosome[k] and "
+                                            "result.start[k] == cnarr.data.start[k] and result.end[k] == cnarr.data.end[k] and "
+                                            "result.gene[k] == cnarr.data.gene[k] and result.log2[k] == cnarr.data.log2[k] and "
+                                            "result.probe[k] == cnarr.data.chromosome[k] + ':' + str(cnarr.data.start[k] + 1) + '-' + str(cnarr.data.end[k]))"),
+    ],
+    props=("C20",), domain="skip",
+    canaries=[("gene_as_probe", 'out_table["probe"] = cnarr.labels()', 'out_table["probe"] = cnarr.data["gene"]'),
+              ("weight_kept", 'columns=["chromosome", "start", "end", "gene", "log2"]', 'columns=["chromosome", "start", "end", "gene", "log2", "weight"]')],
+    notes="GenomicArray.labels (row-wise to_label) is executed in place against to_label's contract",
 )
